@@ -196,7 +196,7 @@ func structuralFrozenObligations(P *Program, C *Contracts) *FuncResult {
 		return false
 	}
 	for _, d := range decls {
-		var bad []string
+		var bad, notFresh []string
 		found := false
 		for _, f := range fns {
 			key := funcKey(f)
@@ -219,6 +219,9 @@ func structuralFrozenObligations(P *Program, C *Contracts) *FuncResult {
 						S, ok := pt.Elem().Underlying().(*types.Struct)
 						if ok && S.Field(a.Field).Name() == d.field {
 							hit = true
+							if !ownAllocation(a.X) {
+								notFresh = append(notFresh, key+" at "+P.pos(in.Pos()))
+							}
 						}
 					default:
 						// whole-object store  *p = T{...}
@@ -244,6 +247,9 @@ func structuralFrozenObligations(P *Program, C *Contracts) *FuncResult {
 		case len(bad) > 0:
 			o.Status = "unknown"
 			o.Raw = "frozen field " + d.tk + "." + d.field + " is assigned outside its constructors: " + strings.Join(bad, "; ")
+		case len(notFresh) > 0:
+			o.Status = "unknown"
+			o.Raw = "frozen field " + d.tk + "." + d.field + " is assigned on an object the function did not allocate itself: " + strings.Join(notFresh, "; ")
 		case !found:
 			o.Status = "unknown"
 			o.Raw = "frozen field " + d.tk + "." + d.field + ": no assignment found at all (declaration does not match the code)"
@@ -265,4 +271,40 @@ func dedupe(xs []string) []string {
 		}
 	}
 	return out
+}
+
+
+// ownAllocation: the address is (a field of a field of ...) an object allocated by the same function.
+func ownAllocation(v ssa.Value) bool {
+	for {
+		switch x := v.(type) {
+		case *ssa.Alloc:
+			return true
+		case *ssa.FieldAddr:
+			v = x.X
+		case *ssa.UnOp:
+			// naive form: the pointer is loaded from a local variable that was assigned the allocation once
+			a, ok := x.X.(*ssa.Alloc)
+			if !ok || x.Op != token.MUL || a.Referrers() == nil {
+				return false
+			}
+			var stored ssa.Value
+			n := 0
+			for _, r := range *a.Referrers() {
+				if st, ok := r.(*ssa.Store); ok && st.Addr == ssa.Value(a) {
+					stored = st.Val
+					n++
+				}
+			}
+			if n != 1 {
+				return false
+			}
+			if _, ok := stored.(*ssa.Alloc); ok {
+				return true
+			}
+			return false
+		default:
+			return false
+		}
+	}
 }
